@@ -315,6 +315,44 @@ func genFacts() {
 	})
 	f["mergeErrorsReturned"] = leanBool(cnt == 2)
 
+	// ---- the row merge and the three statements (C01, C02, C15): the decision points read as the model expects
+	mrows := vc.fn("MergeRows")
+	mrt := vc.text(mrows.Body)
+	f["mergeStatusCond"] = leanStr("unknown")
+	if len(mrows.Body.List) >= 3 {
+		for _, st := range mrows.Body.List {
+			if i, ok := st.(*ast.IfStmt); ok && strings.Contains(vc.text(i.Cond), "DeleteUpdateOffset") {
+				f["mergeStatusCond"] = leanStr(vc.text(i.Cond))
+				break
+			}
+		}
+	}
+	f["mergeStatusBranchesAsExpected"] = leanBool(
+		strings.Contains(mrt, "{ res.Deleted = r2.Deleted res.DeleteUpdateOffset = durationpb.New(t2.Add(r2.DeleteUpdateOffset.AsDuration()).Sub(outTime)) if r1.Deleted { if !r2.Deleted { resetValuesBefore = t2.Add(r2.DeleteUpdateOffset.AsDuration()) } } } else { res.Deleted = r1.Deleted res.DeleteUpdateOffset = durationpb.New(t1.Add(r1.DeleteUpdateOffset.AsDuration()).Sub(outTime)) if !r1.Deleted { if r2.Deleted { resetValuesBefore = t1.Add(r1.DeleteUpdateOffset.AsDuration()) } } }"))
+	f["mergeColumnSwitchAsExpected"] = leanBool(
+		strings.Contains(mrt, "switch { case !inR1: if !hideDeletedValue(t2, v2, resetValuesBefore) { res.ColumnValues[k] = adj(t2, v2, outTime) } case !inR2: if !hideDeletedValue(t1, v1, resetValuesBefore) { res.ColumnValues[k] = adj(t1, v1, outTime) } case !UpdateTime(t2, v2).Before(UpdateTime(t1, v1)): if !hideDeletedValue(t2, v2, resetValuesBefore) { res.ColumnValues[k] = adj(t2, v2, outTime) } default: if !hideDeletedValue(t1, v1, resetValuesBefore) { res.ColumnValues[k] = adj(t1, v1, outTime) } }"))
+	f["deletedRowsKeepColumns"] = leanBool(!strings.Contains(mrt, "if res.Deleted { return &res }") && strings.Count(mrt, "return") == 1)
+	f["hideAndAdjAsExpected"] = leanBool(
+		vc.text(vc.fn("hideDeletedValue").Body) == "{ return UpdateTime(inputTime, cv).Before(resetValuesBefore) }" &&
+			strings.Contains(vc.text(vc.fn("adj").Body), "if inTime.Equal(outTime) { return cv }") &&
+			strings.Contains(vc.text(vc.fn("adj").Body), "UpdateOffset: durationpb.New(UpdateTime(inTime, cv).Sub(outTime))"))
+	mvt := vc.text(vc.fn("mergeValues").Body)
+	f["mergeValuesAsExpected"] = leanBool(strings.Contains(mvt, "resp := crdt.LastWriteWins(&i1, &i2) res := *resp if i1.ModEpochNanos < i2.ModEpochNanos { res.Value = MergeRows(nil, time.Unix(0, i1.ModEpochNanos), i1.Value.(*v1proto.Row), time.Unix(0, i2.ModEpochNanos), i2.Value.(*v1proto.Row), time.Unix(0, i2.ModEpochNanos), ) } else { res.Value = MergeRows(nil, time.Unix(0, i2.ModEpochNanos), i2.Value.(*v1proto.Row), time.Unix(0, i1.ModEpochNanos), i1.Value.(*v1proto.Row), time.Unix(0, i1.ModEpochNanos), ) } return res"))
+	ins := vc.text(vc.fn("VirtualTable.Insert").Body)
+	upd := vc.text(vc.fn("VirtualTable.Update").Body)
+	del := vc.text(vc.fn("VirtualTable.Delete").Body)
+	store := "mt := laterOf(ot, t) merged := MergeRows(key, ot, old, t, &new, mt) err = c.Tree.Root.Set(ctx, mt, NewKey(key), merged)"
+	f["insertRefusedCond"] = leanStr("unknown")
+	if i := vc.ifContaining(vc.fn("VirtualTable.Insert"), "old.Deleted"); i != nil {
+		f["insertRefusedCond"] = leanStr(vc.text(i.Cond))
+	}
+	f["statementsMergeAndStoreAsExpected"] = leanBool(strings.Contains(ins, store) && strings.Contains(upd, store) && strings.Contains(del, store) &&
+		strings.Contains(upd, "if !ok || old.Deleted { return nil }") &&
+		strings.Contains(upd, "new.DeleteUpdateOffset = durationpb.New(ot.Add(old.DeleteUpdateOffset.AsDuration()).Sub(t))") &&
+		strings.Contains(del, "new.Deleted = true") &&
+		strings.Contains(ins, "for i, v := range values { if i == c.KeyCol { continue } colName := c.ColumnNameByIndex[i] new.ColumnValues[colName] = &v1proto.ColumnValue{Value: toSQLiteValue(v)}") &&
+		vc.text(vc.fn("laterOf").Body) == "{ if a.After(b) { return a } return b }")
+
 	// ---- loadRootFromAny: only a NoSuchKey answer moves on to the next location
 	la := kvs.fn("loadRootFromAny")
 	f["loadAnySkipCond"] = leanStr("unknown")
